@@ -98,7 +98,7 @@ def run_shard(spec, ctx):
         ctx.sample({'cell': c, 'r': r})
         return
     for n in range(spec['n']):
-        kind = ('frame', 'polar', 'uniform', 'pattern', 'edge', 'antimeridian', 'seam')[n % 7]
+        kind = ('frame', 'polar', 'uniform', 'pattern', 'edge', 'antimeridian', 'seam', 'equator')[n % 8]
         r = rnd.randint(4, 29)
         try:
             if kind == 'pattern':
@@ -115,7 +115,7 @@ def run_shard(spec, ctx):
 
 def finalize(m, tier):
     inc = []
-    for k in ('enum_lo_held', 'frame_hi_held', 'polar_hi_held', 'uniform_hi_held', 'pattern_hi_held', 'edge_hi_held', 'seam_hi_held'):
+    for k in ('enum_lo_held', 'frame_hi_held', 'polar_hi_held', 'uniform_hi_held', 'pattern_hi_held', 'edge_hi_held', 'seam_hi_held', 'equator_hi_held'):
         if m['counters'].get(k, 0) < 100:
             inc.append('class %s below floor' % k)
     n_inc = m['counters'].get('area_inconclusive', 0)
